@@ -6,6 +6,7 @@ pub mod c02;
 pub mod c03;
 pub mod c04;
 pub mod c05;
+pub mod c06;
 pub mod c08;
 pub mod c11;
 pub mod c12;
@@ -14,6 +15,7 @@ pub mod c14;
 pub mod c15;
 pub mod c16;
 pub mod c17;
+pub mod c18;
 pub mod c19;
 
 pub fn dispatch(id: &str, tier: Tier, seed: u64, replay: Option<PathBuf>) -> i32 {
@@ -23,6 +25,7 @@ pub fn dispatch(id: &str, tier: Tier, seed: u64, replay: Option<PathBuf>) -> i32
         "C03" => run(&c03::C03, tier, seed, replay),
         "C04" => run(&c04::C04, tier, seed, replay),
         "C05" => run(&c05::C05, tier, seed, replay),
+        "C06" => run(&c06::C06, tier, seed, replay),
         "C08" => run(&c08::C08, tier, seed, replay),
         "C11" => run(&c11::C11, tier, seed, replay),
         "C12" => run(&c12::C12, tier, seed, replay),
@@ -31,6 +34,7 @@ pub fn dispatch(id: &str, tier: Tier, seed: u64, replay: Option<PathBuf>) -> i32
         "C15" => run(&c15::C15, tier, seed, replay),
         "C16" => run(&c16::C16, tier, seed, replay),
         "C17" => run(&c17::C17, tier, seed, replay),
+        "C18" => run(&c18::C18, tier, seed, replay),
         "C19" => run(&c19::C19, tier, seed, replay),
         _ => {
             eprintln!("vp: unknown property {}", id);
